@@ -495,6 +495,51 @@ func (rn *runner) textCase(g *gen, d *apd.Decimal) {
 	})
 }
 
+// decompCase: Decompose into a buffer of a given capacity, Compose into a destination with a junk pre-state;
+// then Compose again from a zero-padded coefficient and from an unknown form byte (C13; model: Model/Decompose.lean).
+func (rn *runner) decompCase(g *gen, d *apd.Decimal) {
+	capN := int(g.pick(0, 0, 1, 8, 16, 64, 4096))
+	pre := junk(rn.r)
+	pad := int(g.pick(0, 1, 3))
+	badForm := byte(3 + g.r.Intn(253))
+	in := fmt.Sprintf("%s %d %s %d %d", showDec(d), capN, showDec(pre), pad, badForm)
+	rn.rawCase("decomp", in, true, "decomp", func() string {
+		var buf []byte
+		if capN > 0 {
+			buf = make([]byte, 0, capN)
+		}
+		before := showDec(d)
+		f, n, co, e := d.Decompose(buf)
+		y := new(apd.Decimal).Set(pre)
+		r1 := "compose-err"
+		if err := y.Compose(f, n, co, e); err == nil {
+			r1 = showDec(y)
+		}
+		// zero-padded coefficient: the same value
+		z := new(apd.Decimal).Set(pre)
+		padded := append(make([]byte, pad), co...)
+		r2 := "compose-err"
+		if err := z.Compose(f, n, padded, e); err == nil {
+			r2 = showDec(z)
+		}
+		// unknown form: an error, destination untouched
+		u := new(apd.Decimal).Set(pre)
+		r3 := "accepted"
+		if err := u.Compose(badForm, n, co, e); err != nil {
+			r3 = "rejected:" + showDec(u)
+		}
+		op := "operand-same"
+		if showDec(d) != before {
+			op = "operand-changed"
+		}
+		nb := "0"
+		if n {
+			nb = "1"
+		}
+		return fmt.Sprintf("%d %s %s %d %s %s %s %s", f, nb, hx(string(co)), e, r1, r2, r3, op)
+	})
+}
+
 func (rn *runner) floatCase(bits uint64) {
 	rn.rawCase("float", fmt.Sprint(bits), true, "float", func() string {
 		f := math.Float64frombits(bits)
@@ -551,6 +596,9 @@ func (rn *runner) streamText(g *gen) {
 			d = g.decimal(c, false)
 		}
 		rn.textCase(g, d)
+		if i%3 == 0 {
+			rn.decompCase(g, d)
+		}
 		if i%12 == 0 {
 			// exponents beyond the package limits, up to the ends of int32: scientific notation only
 			// (plain notation of such a value would have billions of characters)
